@@ -43,15 +43,25 @@ Proof.
   - apply flow_ordefault_complete_iff. left. exact Hz.
 Qed.
 
+Lemma harmless_for_harmless : forall k m, flow_harmless_for k m = true -> flow_harmless m = true.
+Proof. intros k m; destruct m, k; cbn; intros H; try discriminate; reflexivity. Qed.
+
+(** For an immutable scalar field the admitted modes are complete for EVERY value (falsy ones included). *)
+Theorem imm_flow_complete : forall m d g z,
+  flow_harmless_for KImm m = true -> field_complete (flow_fun m d g) z.
+Proof.
+  intros m d g z H. destruct m; try discriminate H; apply flow_ident_complete; auto.
+Qed.
+
 (** What the boolean means, row by row. *)
 Theorem lossless_rows : forall c fl, copy_args_lossless c fl = true ->
   forall f k w, In (f, k, w) c -> needs_source w = true ->
-  (forall g m, In (g, m) (flows_of fl f) -> g = f /\ flow_harmless m = true) /\
+  (forall g m, In (g, m) (flows_of fl f) -> g = f /\ flow_harmless_for k m = true) /\
   (exists g m, In (g, m) (flows_of fl f) /\ flow_carries m = true).
 Proof.
   intros c fl H f k w Hin Hw. unfold copy_args_lossless in H. rewrite forallb_forall in H.
   specialize (H _ Hin). unfold field_flow_ok in H. cbn [snd cname fst] in H.
-  assert (HH : forallb (own_harmless f) (flows_of fl f) && existsb (fun x => flow_carries (snd x)) (flows_of fl f) = true).
+  assert (HH : forallb (own_harmless f k) (flows_of fl f) && existsb (fun x => flow_carries (snd x)) (flows_of fl f) = true).
   { destruct w; try discriminate Hw; exact H. }
   apply andb_true_iff in HH. destruct HH as [H1 H2]. split.
   - intros g m Hg. rewrite forallb_forall in H1. specialize (H1 _ Hg). unfold own_harmless in H1. cbn [fst snd] in H1.
